@@ -292,6 +292,29 @@ func runC05(w *World, r *Report) {
 		}
 	}
 
+	// the non-interrupted completed tasks are folded into the channels (values AND dependencies) before the checkpoint is built
+	{
+		uvF := w.Fn("compose", "channelManager.updateValues")
+		udF := w.Fn("compose", "channelManager.updateDependencies")
+		var cpAlloc ssa.Instruction
+		instrs(hSub, func(in ssa.Instruction) {
+			if al, ok := in.(*ssa.Alloc); ok && al.Heap && namedOf(al.Type()) == cpT {
+				cpAlloc = al
+			}
+		})
+		good := cpAlloc != nil
+		wit := ""
+		if good {
+			for _, f := range []*ssa.Function{uvF, udF} {
+				skip, wt := pathQuery{fn: hSub, goal: func(in ssa.Instruction) bool { return in == cpAlloc }, avoid: func(in ssa.Instruction) bool { return isCallTo(in, f) }}.exists()
+				if skip {
+					good, wit = false, f.Name()+" skipped: "+wt
+				}
+			}
+		}
+		r.Check(good, "C05.wait-all-before-save", hSub.Name()+" folds completed siblings into the channels unconditionally", hSub.Pos(), "updateValues and updateDependencies lie on every path to the checkpoint", "completed sibling tasks are not always folded into the checkpoint (e.g. control-only successors lose their trigger): "+wit)
+	}
+
 	// ---- skip-prehandler
 	r.Rule("C05.skip-prehandler", "task.skipPreHandler written only in restoreTasks from the checkpoint; submit skips the pre-handler only under it", 2)
 	fSkip := w.Field("compose", "task", "skipPreHandler")
